@@ -379,7 +379,14 @@ func (gp *GenginePool) UpdatePooledRulesIncremental(ruleStr string) error {
 func (gp *GenginePool) ClearPoolRules() {
 	gp.updateLock.Lock()
 	defer gp.updateLock.Unlock()
-	gp.ruleBuilder = nil
+	//keep an empty master instead of nil, so that a later incremental update or removal works on "no rules"
+	dataContext := context.NewDataContext()
+	if gp.apis != nil {
+		for k, v := range gp.apis {
+			dataContext.Add(k, v)
+		}
+	}
+	gp.ruleBuilder = builder.NewRuleBuilder(dataContext)
 	gp.clear = true
 	for i := 0; i < int(gp.max); i++ {
 		gp.rbSlice[i].Kc.ClearRules()
